@@ -18,6 +18,10 @@ Lemma run_stmts_one step s ρ w :
   run_stmts step [s] ρ w = seq_out (step s ρ w) (fun ρ' w' => Ok (ONormal ρ', w')).
 Proof. reflexivity. Qed.
 
+Lemma run_stmts_cons step s rest ρ w :
+  run_stmts step (s :: rest) ρ w = seq_out (step s ρ w) (fun ρ' w' => run_stmts step rest ρ' w').
+Proof. reflexivity. Qed.
+
 Section U.
 Variable G : fenv.
 Definition tails (cls m : string) : option oracle := match methods G cls m with Some (CTail o) => Some o | _ => None end.
